@@ -98,7 +98,14 @@ def build_jobs(tier, rep):
         seen.setdefault((j[0], x), j)
     jobs += list(seen.values())
     rep.cov["bounds_skeletons"] = {"L2_and_LD_rendered": len(sj), "LD_delimiter_dense": len(ld), "distinct_tag_structures": len(seen)}
-    rep.cov["bounds"] = {"LM_placed": len(lm), "L1": len(l1), "L2": len(l2), "configs_html_off": len(cfgs),
+    # a few documents at scale (size thresholds: padded table cells, long lists, deep nesting)
+    scale = ["|" + "h|" * 256 + "\n|" + "-|" * 256 + "\n" + "x\n" * 262,
+             "|" + "<b>|" * 1000 + "\n|" + "-|" * 1000 + "\n" + "|&|\n" * 70,
+             "".join("- i%d <i> &amp; `c`\n" % k for k in range(3000)),
+             "> " * 150 + "deep <q>\n",
+             ("word &lt; <b> *e* [l](/u \"t\") " * 3000) + "\n"]
+    jobs += [(cfgs[(0, 5)[k % 2]], "render", d) for k, d in enumerate(scale)]
+    rep.cov["bounds"] = {"scale_docs": len(scale), "LM_placed": len(lm), "L1": len(l1), "L2": len(l2), "configs_html_off": len(cfgs),
                          "executed": len(jobs)}
     rep.cov["exhaustive"] = False
     return jobs
